@@ -109,8 +109,9 @@ CLAIMS = {
         "is read back for that pair in either order and for no other pair; identical taxa read zero; set on identical taxa accepted iff zero); indexed iteration lists every cell once "
         "under the pair the index assigns; the pair-keyed map is exactly all ordered pairs with get's values; extremum search returns an iterated entry; relabelling (set_taxa) with as many distinct "
         "labels succeeds, changes no cell, and afterwards the pair of new labels at positions (i,j) reads what the old labels at those positions read (a wrong number of labels is refused). Tied to the crate on every "
-        "size 0..40 over all cells (reads, sets with full read-back, iteration, map, extrema with ties, extrema over matrices with infinite entries) and random set/get/set_taxa sequences against a positional table. The crate's FLOATING-POINT inverse is compared with an "
-        "integer inverse through the hook at triangular-number boundaries below 2^50 (all of them in the thorough tier).",
+        "size 0..40 over all cells (reads, sets with full read-back, iteration, map, extrema with ties, extrema over matrices with infinite entries) and random set/get/set_taxa sequences against a positional table. The crate's FLOATING-POINT inverse is a theorem under ONE explicit hypothesis about the hardware square root (float_inverse_correct: if the returned value s satisfies m <= s <-> m^2 <= 8k+1 for every natural m — "
+        "true of a correctly rounded IEEE sqrt whenever 8k+1 < 2^53 — the pair the code returns is the integer inverse); that hypothesis is what the hook-based sweep checks on the real f64::sqrt at the "
+        "triangular-number boundaries below 2^50 (all of them in the thorough tier).",
    note=NOTE + "Modelled, not verified: the f64 sqrt/floor inverse rowvec_to_tril_index (boundary sweep + IEEE monotonicity argument, a check and not a theorem); entries are small integers held exactly in f64.",
    technique="Lean 4 proofs of the index bijection and store laws for all sizes + exhaustive small-size differential execution + boundary sweep of the float inverse", ref="5 C13"),
  "C04": dict(
